@@ -15,6 +15,7 @@ import (
 	"github.com/LiskHQ/lisk-engine/pkg/blockchain"
 	"github.com/LiskHQ/lisk-engine/pkg/codec"
 	"github.com/LiskHQ/lisk-engine/pkg/consensus"
+	"github.com/LiskHQ/lisk-engine/pkg/consensus/contradiction"
 	"github.com/LiskHQ/lisk-engine/pkg/crypto"
 	"github.com/LiskHQ/lisk-engine/pkg/db"
 	"github.com/LiskHQ/lisk-engine/pkg/db/diffdb"
@@ -22,9 +23,11 @@ import (
 	"github.com/LiskHQ/lisk-engine/pkg/generator"
 	"github.com/LiskHQ/lisk-engine/pkg/labi"
 	"github.com/LiskHQ/lisk-engine/pkg/log"
+	"github.com/LiskHQ/lisk-engine/pkg/p2p"
 	"github.com/LiskHQ/lisk-engine/pkg/txpool"
 
 	"verifharness/internal/exh"
+	"verifharness/internal/gsx"
 	"verifharness/internal/hx"
 )
 
@@ -221,10 +224,12 @@ func genSel(o *hx.Out, r *hx.Rng, n int) {
 // ---------------------------------------------------------------------------------------- generator info
 
 type genEv struct {
-	Op    string    `json:"op"`              // forge | tip | begin | delete | apply | end | restart
-	T     [3]uint32 `json:"t,omitempty"`     // tip: header maxHeightPrevoted, state maxHeightPrevoted, height
-	After uint32    `json:"after,omitempty"` // forge: state maxHeightPrevoted after the generated block
+	Op    string    `json:"op"`              // forge | tip | sync | restart
+	T     [2]uint32 `json:"t,omitempty"`     // tip: state maxHeightPrevoted, height
+	On    bool      `json:"on,omitempty"`    // sync: syncing on / off
+	After uint32    `json:"after,omitempty"` // forge: state maxHeightPrevoted after the generated block (when it gets applied)
 	Lost  bool      `json:"lost,omitempty"`  // forge: the process dies between persist and hand-off
+	Drop  bool      `json:"drop,omitempty"`  // forge: the handed-over block is not processed (busy executer / full queue)
 	// observation (forge)
 	Forged bool       `json:"forged"`
 	Hdr    [3]uint32  `json:"hdr"`              // height, maxHeightPrevoted, maxHeightGenerated
@@ -235,7 +240,7 @@ type genEv struct {
 
 type genRec struct {
 	K    string    `json:"k"`
-	T0   [3]uint32 `json:"t0"`
+	T0   [2]uint32 `json:"t0"`
 	Evs  []genEv   `json:"evs"`
 	Fail string    `json:"fail,omitempty"` // harness-level failure
 }
@@ -278,6 +283,10 @@ func newGenEnv(nVal int, blockTime uint32) (*genEnv, error) {
 	if err != nil {
 		return nil, err
 	}
+	return envFor(n)
+}
+
+func envFor(n *exh.Node) (*genEnv, error) {
 	gdb, err := db.NewInMemoryDB()
 	if err != nil {
 		return nil, err
@@ -323,21 +332,19 @@ func runGen(rec genRec) genRec {
 		ev := &rec.Evs[i]
 		ev.Forged, ev.Hdr, ev.AtHand, ev.Stored, ev.Panic = false, [3]uint32{}, nil, nil, ""
 		switch ev.Op {
-		case "tip", "delete", "apply":
+		case "tip":
 			tip = ev.T
-		case "begin":
-			syncing = true
-		case "end":
-			syncing = false
+		case "sync":
+			syncing = ev.On
 		case "restart":
-			// a new Generator object is built for every forge below: nothing else lives in memory
+			syncing = false // a new Generator object is built for every forge below: nothing else lives in memory
 		case "forge":
-			for attempt := 0; attempt < 4 && !ev.Forged && ev.Panic == ""; attempt++ {
+			for attempt := 0; attempt < 2 && !ev.Forged && ev.Panic == ""; attempt++ {
 				now := uint32(time.Now().Unix())
 				slot := env.node.Exec.GetSlotNumber(now)
 				prevSlotTime := env.node.Exec.GetSlotTime(slot - 1)
-				fake := &blockchain.Block{Header: &blockchain.BlockHeader{Version: 2, Height: tip[2], Timestamp: prevSlotTime,
-					ID: crypto.Hash([]byte(fmt.Sprintf("fake tip %d %d %d", tip[0], tip[1], tip[2]))), StateRoot: crypto.Hash([]byte{}),
+				fake := &blockchain.Block{Header: &blockchain.BlockHeader{Version: 2, Height: tip[1], Timestamp: prevSlotTime,
+					ID: crypto.Hash([]byte(fmt.Sprintf("fake tip %d %d", tip[0], tip[1]))), StateRoot: crypto.Hash([]byte{}),
 					MaxHeightPrevoted: tip[0]}, Assets: blockchain.BlockAssets{}, Transactions: []*blockchain.Transaction{}}
 				chain := blockchain.NewChain(&blockchain.ChainConfig{ChainID: env.node.Opt.ChainID, MaxBlockCache: 10, KeepEventsForHeights: -1})
 				chain.Init(fake, env.node.DB)
@@ -345,7 +352,7 @@ func runGen(rec genRec) genRec {
 					rec.Fail = "cache: " + err.Error()
 					return rec
 				}
-				cons := &fakeCons{Executer: env.node.Exec, node: env.node, mhp: tip[1], syncing: syncing}
+				cons := &fakeCons{Executer: env.node.Exec, node: env.node, mhp: tip[0], syncing: syncing}
 				var g *generator.Generator
 				cons.onAdd = func(b *blockchain.Block) {
 					ev.Forged = true
@@ -358,25 +365,25 @@ func runGen(rec genRec) genRec {
 					rec.Fail = "generator init: " + err.Error()
 					return rec
 				}
+				var startSec int64
 				func() {
 					defer func() {
 						if r := recover(); r != nil {
 							ev.Panic = "forge: " + firstLine(r)
 						}
 					}()
+					startSec = time.Now().Unix()
 					g.VerifC15Forge()
 				}()
 				info, _, _ := g.VerifC15StoredInfo(addr)
 				ev.Stored = info3(info)
-				if syncing {
-					break // a single attempt: nothing may be forged while syncing
-				}
-				if !ev.Forged && ev.Panic == "" {
-					time.Sleep(1100 * time.Millisecond) // slot boundary / wait threshold: try again in the next second
+				// a refusal is final unless the second changed under our feet (slot computed for the fake tip is then stale)
+				if ev.Forged || time.Now().Unix() == startSec && uint32(startSec) == now {
+					break
 				}
 			}
-			if ev.Forged && !ev.Lost {
-				tip = [3]uint32{tip[1], ev.After, tip[2] + 1}
+			if ev.Forged && !ev.Lost && !ev.Drop {
+				tip = [2]uint32{ev.After, tip[1] + 1}
 			}
 		default:
 			rec.Fail = "unknown op " + ev.Op
@@ -386,109 +393,271 @@ func runGen(rec genRec) genRec {
 	return rec
 }
 
-func keyLe(a, b [3]uint32) bool { return a[0] < b[0] || (a[0] == b[0] && a[2] <= b[2]) }
-
 func genGen(o *hx.Out, r *hx.Rng, n int) {
-	// the reproduced defect first: 99,100 on chain A, then 90,91 on the better, shorter chain B
-	o.Put(runGen(genRec{T0: [3]uint32{50, 50, 98}, Evs: []genEv{{Op: "forge", After: 50}, {Op: "forge", After: 50},
-		{Op: "tip", T: [3]uint32{60, 60, 89}}, {Op: "forge", After: 60}, {Op: "forge", After: 60}}}))
+	// the reproduced defects first: 99,100 on chain A then 90,91 on the better, shorter chain B; a second tick before the
+	// own block is processed; a tip lowered by a failed sync
+	o.Put(runGen(genRec{T0: [2]uint32{50, 98}, Evs: []genEv{{Op: "forge", After: 50}, {Op: "forge", After: 50},
+		{Op: "tip", T: [2]uint32{60, 89}}, {Op: "forge", After: 60}, {Op: "forge", After: 60}}}))
+	o.Put(runGen(genRec{T0: [2]uint32{3, 3}, Evs: []genEv{{Op: "forge", After: 3, Drop: true}, {Op: "forge", After: 3}}}))
+	o.Put(runGen(genRec{T0: [2]uint32{0, 6}, Evs: []genEv{{Op: "forge", After: 0}, {Op: "tip", T: [2]uint32{0, 5}}, {Op: "forge", After: 0}}}))
 	for i := 0; i < n; i++ {
-		t := [3]uint32{0, 0, uint32(r.Intn(200))}
-		t[0] = uint32(r.Intn(int(t[2]) + 1))
-		t[1] = t[0] + uint32(r.Intn(int(t[2]-t[0])+1))
+		t := [2]uint32{0, uint32(r.Intn(200))}
+		t[0] = uint32(r.Intn(int(t[1]) + 1))
 		if r.Intn(8) == 0 {
-			t = [3]uint32{0xfffffff0 - uint32(r.Intn(100)), 0xfffffff0, 0xfffffff5 - uint32(r.Intn(3))}
+			t = [2]uint32{0xffffff00 - uint32(r.Intn(100)), 0xffffff80 - uint32(r.Intn(3))}
 		}
 		rec := genRec{T0: t}
 		cur := t
-		var orig *[3]uint32
-		steps := 4 + r.Intn(8)
+		steps := 4 + r.Intn(9)
 		for s := 0; s < steps; s++ {
 			bump := func(x uint32, d int) uint32 {
-				if uint64(x)+uint64(d) > 0xfffffffd {
-					return 0xfffffffd
+				if uint64(x)+uint64(d) > 0xffffffff {
+					return 0xffffffff
 				}
 				return x + uint32(d)
 			}
-			randTip := func() [3]uint32 { // any well-formed tip (used during a switch)
-				h := uint32(r.Intn(220))
-				m := uint32(r.Intn(int(h) + 1))
-				return [3]uint32{m, m + uint32(r.Intn(int(h-m)+1)), h}
-			}
-			betterTip := func(from [3]uint32) [3]uint32 { // key_le from result
-				switch r.Intn(4) {
-				case 0: // valid block on top
-					return [3]uint32{from[1], bump(from[1], r.Intn(2)), bump(from[2], 1)}
-				case 1: // tie break: same key
-					return [3]uint32{from[0], bump(from[0], r.Intn(3)), from[2]}
-				case 2: // better and shorter chain
-					m := bump(from[0], 1+r.Intn(5))
-					h := from[2] - uint32(r.Intn(int(from[2]%40)+1))
-					if h < m {
-						h = m
-					}
-					return [3]uint32{m, bump(m, r.Intn(3)), h}
-				default: // longer chain, same maxHeightPrevoted
-					return [3]uint32{from[0], bump(from[0], r.Intn(3)), bump(from[2], 1+r.Intn(6))}
-				}
-			}
-			if orig != nil {
-				switch r.Intn(5) {
-				case 0:
-					rec.Evs = append(rec.Evs, genEv{Op: "forge"}) // must be refused while syncing
-				case 1, 2:
-					cur = randTip()
-					rec.Evs = append(rec.Evs, genEv{Op: []string{"delete", "apply"}[r.Intn(2)], T: cur})
-				default:
-					cur = betterTip(*orig)
-					rec.Evs = append(rec.Evs, genEv{Op: "apply", T: cur}, genEv{Op: "end"})
-					orig = nil
-				}
-				continue
-			}
-			switch r.Intn(10) {
-			case 0, 1, 2, 3, 4:
-				ev := genEv{Op: "forge", After: bump(cur[1], r.Intn(2)), Lost: r.Intn(6) == 0}
-				if cur[2] >= 0xfffffffd {
-					continue
-				}
+			switch r.Intn(12) {
+			case 0, 1, 2, 3, 4, 5:
+				ev := genEv{Op: "forge", After: bump(cur[0], r.Intn(2)), Lost: r.Intn(7) == 0, Drop: r.Intn(7) == 0}
 				rec.Evs = append(rec.Evs, ev)
-				if !ev.Lost {
-					cur = [3]uint32{cur[1], ev.After, cur[2] + 1}
+				if !ev.Lost && !ev.Drop && cur[1] < 0xfffffff8 {
+					cur = [2]uint32{ev.After, cur[1] + 1} // as if it forged; runGen moves the real tip only when it did
 				}
-			case 5, 6:
-				cur = betterTip(cur)
+			case 6: // valid block of someone else on top
+				cur = [2]uint32{bump(cur[0], r.Intn(2)), cur[1] + 1}
 				rec.Evs = append(rec.Evs, genEv{Op: "tip", T: cur})
-			case 7:
+			case 7: // better and shorter chain
+				m := bump(cur[0], 1+r.Intn(5))
+				h := cur[1] - uint32(r.Intn(int(cur[1]%40)+1))
+				cur = [2]uint32{m, h}
+				rec.Evs = append(rec.Evs, genEv{Op: "tip", T: cur})
+			case 8: // anything: deletes, failed sync, lower tip, uint32 extremes
+				switch r.Intn(3) {
+				case 0:
+					cur = [2]uint32{cur[0] - uint32(r.Intn(int(cur[0]%5)+1)), cur[1] - uint32(r.Intn(int(cur[1]%6)+1))}
+				case 1:
+					cur = [2]uint32{uint32(r.Intn(220)), uint32(r.Intn(220))}
+				default:
+					cur = [2]uint32{cur[0], 0xfffffff0 - uint32(r.Intn(2))} // (sealBlock asks for the parameters of height+1: stay clear of the wrap)
+				}
+				rec.Evs = append(rec.Evs, genEv{Op: "tip", T: cur})
+			case 9:
+				rec.Evs = append(rec.Evs, genEv{Op: "sync", On: r.Intn(2) == 0})
+			case 10:
 				rec.Evs = append(rec.Evs, genEv{Op: "restart"})
-			default:
-				c := cur
-				orig = &c
-				rec.Evs = append(rec.Evs, genEv{Op: "begin"})
+			default: // same tip again (tie break keeps the key)
+				rec.Evs = append(rec.Evs, genEv{Op: "tip", T: cur})
 			}
 		}
-		if orig != nil {
-			cur = [3]uint32{orig[0], orig[1], orig[2]}
-			rec.Evs = append(rec.Evs, genEv{Op: "apply", T: cur}, genEv{Op: "end"})
-		}
-		o.Put(runGen(rec))
+		out := runGen(rec)
+		o.Put(out)
 	}
+}
+
+// ---------------------------------------------------------------------------------------- forging when the environment misbehaves
+//
+// "busy": the Executer does not process the handed-over block before the next tick (its queue is never drained here;
+// the same happens when the queue is full and AddInternal drops the block): the generator is asked to forge again.
+// "lower": the generator forges block X, X is applied; a block sync from a better peer fails after the deletions
+// (the peer stops serving), leaving a lower tip; the generator is asked to forge again.
+// Both headers come from the same generator: they must not contradict.
+
+type dblRec struct {
+	K       string    `json:"k"`
+	Mode    string    `json:"mode"`
+	First   [3]uint32 `json:"first"` // height, maxHeightPrevoted, maxHeightGenerated
+	Second  [3]uint32 `json:"second"`
+	Forged1 bool      `json:"forged1"`
+	Forged2 bool      `json:"forged2"`
+	Contra  bool      `json:"contra"` // AreDistinctHeadersContradicting(first, second)
+	SameGen bool      `json:"samegen"`
+	Fail    string    `json:"fail,omitempty"`
+	Panic   string    `json:"panic,omitempty"`
+}
+
+type queueCons struct {
+	*consensus.Executer
+	got []*blockchain.Block
+}
+
+func (c *queueCons) AddInternal(b *blockchain.Block) {
+	c.got = append(c.got, b)
+	c.Executer.AddInternal(b) // queued; nothing drains the queue in this scenario
+}
+
+func forgeRetry(g *generator.Generator, count func() int, rec *dblRec, attempts int) bool {
+	before := count()
+	for attempt := 0; attempt < attempts && count() == before && rec.Panic == ""; attempt++ {
+		func() {
+			defer func() {
+				if r := recover(); r != nil {
+					rec.Panic = "forge: " + firstLine(r)
+				}
+			}()
+			g.VerifC15Forge()
+		}()
+		if count() == before && rec.Panic == "" {
+			time.Sleep(1050 * time.Millisecond)
+		}
+	}
+	return count() > before
+}
+
+func hdr3(b *blockchain.Block) [3]uint32 {
+	return [3]uint32{b.Header.Height, b.Header.MaxHeightPrevoted, b.Header.MaxHeightGenerated}
+}
+
+func finishDbl(rec *dblRec, got []*blockchain.Block) {
+	if len(got) >= 1 {
+		rec.First = hdr3(got[0])
+	}
+	if len(got) >= 2 {
+		rec.Second = hdr3(got[1])
+		rec.SameGen = string(got[0].Header.GeneratorAddress) == string(got[1].Header.GeneratorAddress)
+		rec.Contra = contradiction.AreDistinctHeadersContradicting(contradiction.NewBFTBlockHeader(got[0].Header.Readonly()),
+			contradiction.NewBFTBlockHeader(got[1].Header.Readonly()))
+	}
+}
+
+func runDbl(mode string) (rec dblRec) {
+	rec = dblRec{K: "dbl", Mode: mode}
+	switch mode {
+	case "busy":
+		env, err := newGenEnv(1, 2)
+		if err != nil {
+			rec.Fail = err.Error()
+			return rec
+		}
+		defer env.node.DB.Close()
+		defer env.gdb.Close()
+		for i := 0; i < 3; i++ {
+			if r := env.node.ProcessValidated(env.node.NextValid(exh.Build{}), false); !r.OK() {
+				rec.Fail = "pre block"
+				return rec
+			}
+		}
+		seedInfos(env)
+		cons := &queueCons{Executer: env.node.Exec}
+		g, err := env.newGenerator(cons, env.node.Chain)
+		if err != nil {
+			rec.Fail = err.Error()
+			return rec
+		}
+		rec.Forged1 = forgeRetry(g, func() int { return len(cons.got) }, &rec, 5)
+		time.Sleep(1100 * time.Millisecond) // the next tick of the check loop
+		rec.Forged2 = forgeRetry(g, func() int { return len(cons.got) }, &rec, 2)
+		finishDbl(&rec, cons.got)
+	case "lower":
+		var cons *captureCons
+		var g *generator.Generator
+		var env *genEnv
+		got := []*blockchain.Block{}
+		pre := func(a *exh.Node) {
+			var err error
+			env, err = envFor(a)
+			if err != nil {
+				rec.Fail = err.Error()
+				return
+			}
+			seedInfos(env)
+			cons = &captureCons{Executer: a.Exec}
+			g, err = env.newGenerator(cons, a.Chain)
+			if err != nil {
+				rec.Fail = err.Error()
+				return
+			}
+			rec.Forged1 = forgeRetry(g, func() int {
+				if cons.got != nil {
+					return 1
+				}
+				return 0
+			}, &rec, 5)
+			if cons.got != nil {
+				got = append(got, cons.got)
+				if r := a.Process(cons.got); !r.OK() {
+					rec.Fail = "own block rejected: " + firstLine(r.Err)
+				}
+			}
+		}
+		after := func(a *exh.Node) {
+			if g == nil || cons == nil || rec.Fail != "" {
+				return
+			}
+			first := cons.got
+			cons.got = nil
+			g2, err := env.newGenerator(cons, a.Chain) // same generator DB; the chain object is the same
+			if err != nil {
+				rec.Fail = err.Error()
+				return
+			}
+			_ = first
+			rec.Forged2 = forgeRetry(g2, func() int {
+				if cons.got != nil {
+					return 1
+				}
+				return 0
+			}, &rec, 2)
+			if cons.got != nil {
+				got = append(got, cons.got)
+			}
+		}
+		obs := gsx.RunSync(gsx.SyncSpec{N: 4, Prefix: 4, Own: 2, Peer: 14, HCB: "honest", Corrupt: -1, ErrAfter: 1}, pre, after)
+		if obs.Fail != "" && rec.Fail == "" {
+			rec.Fail = "sync scenario: " + obs.Fail
+		}
+		if rec.Fail == "" && len(obs.After) >= len(obs.Before) {
+			rec.Fail = "the failing block sync did not lower the tip"
+		}
+		finishDbl(&rec, got)
+	}
+	return rec
+}
+
+// seedInfos writes the generator DB entries that the generator would hold had it produced the chain so far.
+func seedInfos(env *genEnv) {
+	n := env.node
+	last := map[string]*generator.GeneratorInfo{}
+	for h := uint32(1); h <= n.Tip().Header.Height; h++ {
+		hd := n.HeaderAt(h)
+		info := &generator.GeneratorInfo{Height: hd.Height, MaxHeightPrevoted: hd.MaxHeightPrevoted, MaxHeightGenerated: hd.MaxHeightGenerated}
+		if prev, ok := last[string(hd.GeneratorAddress)]; ok && prev.Height > info.MaxHeightGenerated {
+			info.MaxHeightGenerated = prev.Height
+		}
+		last[string(hd.GeneratorAddress)] = info
+	}
+	store := diffdb.New(env.gdb, generator.GeneratorDBPrefixGeneratedInfo)
+	for a, info := range last {
+		store.WithPrefix(generator.GeneratorDBPrefixGeneratedInfo).Set([]byte(a), info.Encode())
+	}
+	batch := env.gdb.NewBatch()
+	store.Commit(batch)
+	env.gdb.Write(batch)
 }
 
 // ---------------------------------------------------------------------------------------- acceptance
 
 type accRec struct {
-	K        string   `json:"k"`
-	NVal     int      `json:"nval"`
-	Pre      int      `json:"pre"`    // blocks on the chain before forging
-	Events   int      `json:"events"` // scripted events of the block execution
-	Rounds   int      `json:"rounds"` // consecutive forge+process rounds
-	Forged   []bool   `json:"forged"`
-	Accepted []bool   `json:"accepted"`
-	TipIs    []bool   `json:"tipis"`
-	Errs     []string `json:"errs,omitempty"`
-	Panic    string   `json:"panic,omitempty"`
-	Fail     string   `json:"fail,omitempty"`
+	K         string   `json:"k"`
+	NVal      int      `json:"nval"`
+	Pre       int      `json:"pre"`     // blocks on the chain before forging
+	Events    int      `json:"events"`  // scripted events of the block execution
+	Rounds    int      `json:"rounds"`  // consecutive forge+process rounds
+	Senders   int      `json:"senders"` // transaction pool: senders x PerSender transactions
+	PerSender int      `json:"persender"`
+	Limit     int      `json:"limit"`    // Genesis.MaxTransactionsSize given to the generator (0 = 15360)
+	BadEvery  int      `json:"badevery"` // every n-th pooled transaction fails verification at generation time (0 = none)
+	Agg       bool     `json:"agg"`      // all validators certify the precommitted height first: a non-empty aggregate commit is available
+	Forged    []bool   `json:"forged"`
+	Accepted  []bool   `json:"accepted"`
+	TipIs     []bool   `json:"tipis"`
+	NTx       []int    `json:"ntx"`     // transactions in the generated block
+	Payload   []int    `json:"payload"` // their total size
+	BadIn     []int    `json:"badin"`   // scripted-to-fail transactions found in the block
+	AggH      []uint32 `json:"aggh"`    // aggregate commit height of the generated header
+	Pooled    int      `json:"pooled"`  // processable transactions offered by the pool
+	Errs      []string `json:"errs,omitempty"`
+	Panic     string   `json:"panic,omitempty"`
+	Fail      string   `json:"fail,omitempty"`
 }
 
 type captureCons struct {
@@ -498,9 +667,55 @@ type captureCons struct {
 
 func (c *captureCons) AddInternal(b *blockchain.Block) { c.got = b }
 
+// nullConn is the p2p side of the transaction pool: nothing is sent anywhere.
+type nullConn struct{}
+
+func (nullConn) Broadcast(ctx context.Context, event string, data []byte) error { return nil }
+func (nullConn) RegisterRPCHandler(endpoint string, handler p2p.RPCHandler, opts ...p2p.RPCHandlerOption) error {
+	return nil
+}
+func (nullConn) RegisterEventHandler(name string, handler p2p.EventHandler, validator p2p.Validator) error {
+	return nil
+}
+func (nullConn) ApplyPenalty(pid p2p.PeerID, score int) {}
+func (nullConn) RequestFrom(ctx context.Context, peerID p2p.PeerID, procedure string, data []byte) p2p.Response {
+	return p2p.Response{}
+}
+func (nullConn) Publish(ctx context.Context, topicName string, data []byte) error { return nil }
+
+type okVerify struct{}
+
+func (okVerify) VerifyTransaction(req *labi.VerifyTransactionRequest) (*labi.VerifyTransactionResponse, error) {
+	return &labi.VerifyTransactionResponse{Result: labi.TxVerifyResultOk}, nil
+}
+
+// genABI is the generator's view of the application: the node's ABI double, except that scripted transactions fail
+// VerifyTransaction while the block is being generated (e.g. insufficient balance at that moment).
+type genABI struct {
+	*exh.ABI
+	bad map[string]bool
+}
+
+func (m *genABI) VerifyTransaction(req *labi.VerifyTransactionRequest) (*labi.VerifyTransactionResponse, error) {
+	if m.bad[string(req.Transaction.ID)] {
+		return &labi.VerifyTransactionResponse{Result: labi.TxVerifyResultInvalid}, nil
+	}
+	return m.ABI.VerifyTransaction(req)
+}
+
+func poolTx(sender, nonce uint64, fee uint64, plen int) *blockchain.Transaction {
+	sg := make([]byte, 64)
+	sg[0], sg[1] = byte(sender), byte(nonce)
+	tx := &blockchain.Transaction{Module: "token", Command: "transfer", Nonce: nonce, Fee: fee, SenderPublicKey: senderKey(sender),
+		Params: make([]byte, plen), Signatures: []codec.Hex{sg}}
+	tx.Init()
+	return tx
+}
+
 func runAcc(rec accRec) accRec {
 	rec.K = "acc"
 	rec.Forged, rec.Accepted, rec.TipIs, rec.Errs, rec.Panic, rec.Fail = []bool{}, []bool{}, []bool{}, nil, "", ""
+	rec.NTx, rec.Payload, rec.BadIn, rec.AggH, rec.Pooled = []int{}, []int{}, []int{}, []uint32{}, 0
 	env, err := newGenEnv(rec.NVal, 2) // 2 s slots: with 1 s slots `now <= slot start + waitThreshold` always holds
 	if err != nil {
 		rec.Fail = "env: " + err.Error()
@@ -509,6 +724,9 @@ func runAcc(rec accRec) accRec {
 	defer env.node.DB.Close()
 	defer env.gdb.Close()
 	n := env.node
+	if rec.Limit > 0 {
+		env.cfg.Genesis.MaxTransactionsSize = uint32(rec.Limit)
+	}
 	if rec.Events > 0 {
 		evs := []*blockchain.Event{}
 		for i := 0; i < rec.Events; i++ {
@@ -523,25 +741,45 @@ func runAcc(rec accRec) accRec {
 			return rec
 		}
 	}
-	// the chain so far was generated by these validators: their generator DB entries say so
-	last := map[string]*generator.GeneratorInfo{}
-	for h := uint32(1); h <= n.Tip().Header.Height; h++ {
-		hd := n.HeaderAt(h)
-		last[string(hd.GeneratorAddress)] = &generator.GeneratorInfo{Height: hd.Height, MaxHeightPrevoted: hd.MaxHeightPrevoted, MaxHeightGenerated: hd.MaxHeightGenerated}
+	seedInfos(env)
+	if rec.Agg {
+		_, prec, _ := n.Heights()
+		for _, v := range n.Vals {
+			if err := n.Exec.Certify(0, prec, v.Addr, v.BLS.PrivateKey); err != nil {
+				rec.Fail = "certify: " + err.Error()
+				return rec
+			}
+		}
 	}
-	store := diffdb.New(env.gdb, generator.GeneratorDBPrefixGeneratedInfo)
-	for a, info := range last {
-		store.WithPrefix(generator.GeneratorDBPrefixGeneratedInfo).Set([]byte(a), info.Encode())
+	// transaction pool with processable transactions
+	pool := txpool.NewTransactionPool(nil)
+	if err := pool.Init(context.Background(), env.lg, n.DB, n.Chain, nullConn{}, okVerify{}); err != nil {
+		rec.Fail = "pool init: " + err.Error()
+		return rec
 	}
-	batch := env.gdb.NewBatch()
-	store.Commit(batch)
-	env.gdb.Write(batch)
+	bad := map[string]bool{}
+	cnt := 0
+	for s := 1; s <= rec.Senders; s++ {
+		for k := 0; k < rec.PerSender; k++ {
+			tx := poolTx(uint64(s), uint64(k), uint64(100000+1000*((s*7+k*3)%5)), 20+((s+k)%3)*60)
+			cnt++
+			if rec.BadEvery > 0 && cnt%rec.BadEvery == 0 {
+				bad[string(tx.ID)] = true
+			}
+			pool.Add(tx)
+		}
+	}
+	pool.VerifC14Reorg()
+	rec.Pooled = len(pool.GetProcessable())
 
 	cons := &captureCons{Executer: n.Exec}
-	g, err := env.newGenerator(cons, n.Chain)
-	if err != nil {
+	g := generator.NewGenerator(&generator.GeneratorParams{Consensus: cons, ABI: &genABI{ABI: n.ABI, bad: bad}, Pool: pool, Chain: n.Chain})
+	if err := g.Init(&generator.GeneratorInitParams{CTX: context.Background(), Cfg: env.cfg, Logger: env.lg, BlockchainDB: n.DB, GeneratorDB: env.gdb}); err != nil {
 		rec.Fail = "generator init: " + err.Error()
 		return rec
+	}
+	for _, v := range n.Vals {
+		g.EnableGeneration(v.Addr, &generator.PlainKeys{GeneratorKey: v.Pub, GeneratorPrivateKey: v.Priv, BLSKey: v.BLS.PublicKey, BLSPrivateKey: v.BLS.PrivateKey})
 	}
 	for round := 0; round < rec.Rounds; round++ {
 		cons.got = nil
@@ -564,19 +802,65 @@ func runAcc(rec accRec) accRec {
 			rec.TipIs = append(rec.TipIs, false)
 			break
 		}
-		res := n.Process(cons.got)
+		blk := cons.got
+		size, badIn := 0, 0
+		for _, tx := range blk.Transactions {
+			size += tx.Size()
+			if bad[string(tx.ID)] {
+				badIn++
+			}
+		}
+		rec.NTx = append(rec.NTx, len(blk.Transactions))
+		rec.Payload = append(rec.Payload, size)
+		rec.BadIn = append(rec.BadIn, badIn)
+		rec.AggH = append(rec.AggH, blk.Header.AggregateCommit.Height)
+		res := n.Process(clone(blk))
 		rec.Accepted = append(rec.Accepted, res.OK())
 		if !res.OK() {
 			rec.Errs = append(rec.Errs, firstLine(res.Err)+" "+firstLine(res.Panic))
 		}
-		rec.TipIs = append(rec.TipIs, string(n.Tip().Header.ID) == string(cons.got.Header.ID))
+		rec.TipIs = append(rec.TipIs, string(n.Tip().Header.ID) == string(blk.Header.ID))
+		for _, tx := range blk.Transactions { // what the generator's onNewBlock does
+			pool.Remove(tx.ID)
+		}
 	}
 	return rec
 }
 
+func clone(b *blockchain.Block) *blockchain.Block {
+	nb, err := blockchain.NewBlock(b.Encode())
+	if err != nil {
+		panic(err)
+	}
+	return nb
+}
+
 func genAcc(o *hx.Out, r *hx.Rng, n int) {
+	fixed := []accRec{
+		{NVal: 4, Pre: 3, Rounds: 1, Senders: 3, PerSender: 3},                        // transactions, all fine
+		{NVal: 4, Pre: 2, Rounds: 1, Senders: 4, PerSender: 3, BadEvery: 3},           // some fail verification
+		{NVal: 4, Pre: 2, Rounds: 2, Senders: 4, PerSender: 4, Limit: 500},            // size limit hit, two rounds
+		{NVal: 4, Pre: 14, Rounds: 1, Senders: 2, PerSender: 2, Agg: true, Events: 1}, // aggregate commit available
+	}
 	for i := 0; i < n; i++ {
-		o.Put(runAcc(accRec{NVal: []int{1, 2, 4}[r.Intn(3)], Pre: r.Intn(9), Events: r.Intn(3), Rounds: 1 + r.Intn(2)}))
+		if i < len(fixed) {
+			o.Put(runAcc(fixed[i]))
+			continue
+		}
+		rec := accRec{NVal: []int{1, 2, 4}[r.Intn(3)], Pre: r.Intn(9), Events: r.Intn(3), Rounds: 1 + r.Intn(2),
+			Senders: r.Intn(5), PerSender: 1 + r.Intn(4)}
+		if r.Intn(2) == 0 {
+			rec.BadEvery = 2 + r.Intn(3)
+		}
+		if r.Intn(2) == 0 {
+			rec.Limit = 200 + r.Intn(900)
+		}
+		if r.Intn(3) == 0 {
+			rec.Agg = true
+			rec.NVal = 4
+			rec.Pre = 10 + r.Intn(8)
+		}
+		o.Put(runAcc(rec))
 	}
 }
 
@@ -585,6 +869,7 @@ func main() {
 	nsel := flag.Int("sel", 800, "selection cases")
 	ngen := flag.Int("gen", 150, "generator info sequences")
 	nacc := flag.Int("acc", 4, "acceptance scenarios")
+	ndbl := flag.Int("dbl", 1, "run the two misbehaving-environment forge scenarios (0 = skip)")
 	in := flag.String("in", "", "replay: JSONL of records to re-run")
 	flag.Parse()
 	r := hx.NewRng(hx.SeedFromEnv())
@@ -624,6 +909,12 @@ func main() {
 					panic(err)
 				}
 				o.Put(runAcc(rec))
+			case "dbl":
+				var rec dblRec
+				if err := json.Unmarshal([]byte(line), &rec); err != nil {
+					panic(err)
+				}
+				o.Put(runDbl(rec.Mode))
 			default:
 				panic("unknown record kind " + probe.K)
 			}
@@ -633,4 +924,8 @@ func main() {
 	genSel(o, r, *nsel)
 	genGen(o, r, *ngen)
 	genAcc(o, r, *nacc)
+	if *ndbl > 0 {
+		o.Put(runDbl("busy"))
+		o.Put(runDbl("lower"))
+	}
 }
